@@ -66,7 +66,7 @@ class TemporalDagWindow(Contract):
             c = ctx.dagc
             SK = c.pre['SKey']
             if it.kind != 'seq' or it.meta.get('elem_kind') != 'int':
-                return self.forbid(ctx, 'C15.window.loop_runs_over_a_list_of_snapshot_ids', tags=T, note='iterable kind %s' % it.kind)
+                return self.shape(ctx, 'C15.window.loop_runs_over_a_list_of_snapshot_ids', tags=T, note='iterable kind %s' % it.kind)
             at = lambda k: it.elem(k).z
             ctx.oblige('C15.window.no_error_only_for_a_proper_window', z3.And(c.lo <= c.s1, c.s1 <= c.e1, c.e1 <= c.hi, SK[c.lo]), tags=T)
             ctx.oblige('C15.window.ids_are_snapshot_ids_inside_the_window',
